@@ -2752,6 +2752,12 @@ class ChannelManager:
         # Process the response
         channel.on_connection_response(response)
 
+        # Remember the channel by destination CID as soon as it is connected
+        if channel.state == LeCreditBasedChannel.State.CONNECTED:
+            self.le_coc_channels.setdefault(connection.handle, {})[
+                channel.destination_cid
+            ] = channel
+
     def on_l2cap_credit_based_connection_request(
         self,
         connection: Connection,
@@ -2882,6 +2888,11 @@ class ChannelManager:
         # Process the response
         for channel, destination_cid in zip(channels, response.destination_cid):
             channel.on_enhanced_connection_response(destination_cid, response)
+            # Remember the channel by destination CID as soon as it is connected
+            if channel.state == LeCreditBasedChannel.State.CONNECTED:
+                self.le_coc_channels.setdefault(connection.handle, {})[
+                    channel.destination_cid
+                ] = channel
 
         if (
             response.result
@@ -2951,10 +2962,6 @@ class ChannelManager:
             logger.exception('connection failed')
             del connection_channels[source_cid]
             raise
-
-        # Remember the channel by source CID and destination CID
-        le_connection_channels = self.le_coc_channels.setdefault(connection.handle, {})
-        le_connection_channels[channel.destination_cid] = channel
 
         return channel
 
@@ -3060,11 +3067,6 @@ class ChannelManager:
             for cid in source_cids:
                 del connection_channels[cid]
             raise
-
-        # Remember the channel by source CID and destination CID
-        le_connection_channels = self.le_coc_channels.setdefault(connection.handle, {})
-        for channel in channels:
-            le_connection_channels[channel.destination_cid] = channel
 
         return channels
 
